@@ -39,7 +39,7 @@ def strat1d(tier):
         return st.builds(lambda n, L, x0, rough, num_r, num_s, s_r, s_s, fl, ic, ns, k, dtl: dict(model=md, mesh=dict(kind="uni", n=n, length=L, x0=x0), num=(num_r if rough else num_s),
                                                                                           state=(s_r if rough else s_s), flux=fl, integ=ic[0], cfl=ic[1], nsteps=ns, shift=k,
                                                                                           dtlocal=(dtl and ic[0] != "gear")),
-                         st.one_of(st.integers(2, 4), st.integers(2, nmax), st.integers(2, nmax), st.sampled_from([129, 300])), gen.logf(-1, 1), st.one_of(st.just(0.0), gen.f(-2, 2)), st.booleans(), gen.num_robust(), gen.num_any(),
+                         st.one_of(st.integers(2, 4), st.integers(2, nmax), st.integers(2, nmax), st.sampled_from([129, 300])), st.one_of(gen.logf(-1, 1), gen.logf(-1, 1), gen.logf(-9, 4)), st.one_of(st.just(0.0), gen.f(-2, 2)), st.booleans(), gen.num_robust(), gen.num_any(),
                          gen.state_for(md, True, lnrange=1.0, machmax=1.5), gen.state_for(md, False, lnrange=0.7, machmax=1.2, smooth_amp=0.05),
                          st.sampled_from(cases.flux_names(fmd)), st.one_of(explicit, explicit, implicit), st.integers(0, 6), st.integers(-40, 40), st.sampled_from([False, False, True]))
     return _models().flatmap(cfg)
@@ -92,11 +92,13 @@ def check1d(case):
         watch.hit = False
     fs = [float(np.max(x)) for x in sim.natural_scales(P.smd, P.prim)]
     dx = float(np.min(P.dxf))
+    # the cells of a "uniform" mesh whose origin is far from 0 (in cell sizes) are equal only to ulp(x)/dx: the faces x0 + i*dx are rounded
+    meshtol = 8 * 2.2e-16 * float(np.max(np.abs(P.xf))) / dx
     worst = 0.0
     for i in range(len(rA)):
         e = float(np.max(np.abs(np.roll(rA[i], k) - rB[i]))) * dx / fs[i]
         require(np.array_equal(np.isnan(np.roll(rA[i], k)), np.isnan(rB[i])), "rhs-nan-pattern", "NaN pattern of the residual does not shift with the data")
-        require(e <= 1e-12, "rhs-shift", "equation %d: rhs(roll(q,%d)) differs from roll(rhs(q),%d) by %.3g x scale/dx (%s/%s, %s, n=%d)"
+        require(e <= 1e-12 + meshtol, "rhs-shift", "equation %d: rhs(roll(q,%d)) differs from roll(rhs(q),%d) by %.3g x scale/dx (%s/%s, %s, n=%d)"
                 % (i, k, k, e, md["name"], case["flux"], case["num"].get("limiter", case["num"]["name"]), n))
         worst = max(worst, e)
     target(worst, "rhs-shift-error")
@@ -130,7 +132,7 @@ def check1d(case):
     amp = sim.amplification(mk, fA, qsc, case["cfl"], case["nsteps"], directives)
     if not amp <= 1e3:
         raise Skip("unstable configuration (round-off amplified > 1e3)")
-    tol = (1e-6 if implicit else 1e-12 * case["nsteps"]) * max(1.0, amp)      # implicit: noise of the finite-difference Jacobian (~1e-8 relative) x CFL x steps
+    tol = (1e-6 if implicit else (1e-12 + meshtol) * case["nsteps"]) * max(1.0, amp)      # implicit: noise of the finite-difference Jacobian (~1e-8 relative) x CFL x steps
     for i in range(len(qA)):
         e = float(np.max(np.abs(np.roll(gA.data[i], k) - gB.data[i]))) / qsc[i]
         require(e <= tol, "solve-shift", "variable %d: stepping roll(q0,%d) %d times differs from roll of the unshifted run by %.3g (relative; tol %.3g; %s, cfl=%g, %s/%s, %s, n=%d)"
